@@ -22,6 +22,14 @@ def run(rep, tier):
     ex = radau.r_radau_const(rep, f)
     rep.rule("R-RADAU-START", "Newton's starting values are the previous collocation polynomial continued to the new stage points: z_j = u_prev(1 + c_j*h/h_prev) - y as polynomial identities, h_prev the step accepted last")
     radau.r_radau_start(rep, f, ex if isinstance(ex, dict) and not ex.get("problems") else None)
+    rep.rule("R-BDF-PREDICT", "BDF: the predictor sum_{j<=k} D_j equals p(x + h) for every polynomial p of degree <= k through the stored points")
+    rep.rule("R-BDF-CORRECT", "BDF: the Newton residual c*f - psi - delta vanishes at a polynomial solution of degree <= k (the corrector formula has order k), the accumulated correction enters with coefficient -1 and the Newton increment moves iterate and correction alike")
+    rep.rule("R-BDF-UPDATE", "BDF: after an accepted step the difference table holds nabla^j y_(n+1), j = 0..k+2, identically in the past values")
+    rep.rule("R-BDF-COEFF", "BDF: gamma_k is the k-th harmonic number and alpha_k + error_const_k = gamma_k + 1/(k+1) (both tables built from the same kappa)")
+    rep.rule("R-BDF-RESCALE", "BDF: change_d(D, k, theta) maps the backward differences of a polynomial of degree <= k for spacing h to those for spacing theta*h (identity in theta, h and the coefficients; orders 1..5; exact evaluation with concrete control)")
+    import bdfx
+    bdfx.r_bdf_rescale(rep, f)
+    bdfx.r_bdf_core(rep, f)
     # a predicted or actual Newton failure must shrink the step by a factor in (0, 1): a factor of 0 stalls the solver on
     # exactly the stiff problems it exists for, a factor >= 1 retries the failing step for ever
     import C04
